@@ -499,7 +499,9 @@ func filterPart(c *harness.Check, depth int) {
 	for s := range best {
 		sigs = append(sigs, s)
 	}
-	sort.Slice(sigs, func(i, j int) bool { return fviolLess(best[sigs[i]], best[sigs[j]]) || (!fviolLess(best[sigs[j]], best[sigs[i]]) && sigs[i] < sigs[j]) })
+	sort.Slice(sigs, func(i, j int) bool {
+		return fviolLess(best[sigs[i]], best[sigs[j]]) || (!fviolLess(best[sigs[j]], best[sigs[i]]) && sigs[i] < sigs[j])
+	})
 	for _, s := range sigs {
 		v := best[s]
 		again := runFilterHistory(v.sizeIdx, v.hist, false)
@@ -527,17 +529,17 @@ func filterPart(c *harness.Check, depth int) {
 	}
 	c.Count(nodes, int64(len(states)), ops)
 	c.Part("filter", map[string]any{
-		"sizes":              filterSizes,
-		"depth":              depth,
-		"alphabet":           "absolute {0,1,2,62..65,127..129,size-1,size,size+1,ringBits-1,ringBits,ringBits+1,2*ringBits-1,2*ringBits+1,2^63,2^64-1-size,2^64-2,2^64-1} + relative to newest accepted {-size-1,-size,-size+1,-1,0,+1,+63,+64,+ringBits} (mod 2^64), deduplicated per state; Reset as an extra action after the first step",
-		"apis":               "every action applied to two real filters: Add on one, IsOk then MustAdd (if ok) on the other; verdicts compared with the reference, states compared with each other",
-		"histories":          nodes,
-		"histories_by_len":   levels[1:],
-		"histories_by_size":  sizeNodes,
-		"real_filter_calls":  ops,
-		"distinct_filter_states_len<=4": len(states),
+		"sizes":                          filterSizes,
+		"depth":                          depth,
+		"alphabet":                       "absolute {0,1,2,62..65,127..129,size-1,size,size+1,ringBits-1,ringBits,ringBits+1,2*ringBits-1,2*ringBits+1,2^63,2^64-1-size,2^64-2,2^64-1} + relative to newest accepted {-size-1,-size,-size+1,-1,0,+1,+63,+64,+ringBits} (mod 2^64), deduplicated per state; Reset as an extra action after the first step",
+		"apis":                           "every action applied to two real filters: Add on one, IsOk then MustAdd (if ok) on the other; verdicts compared with the reference, states compared with each other",
+		"histories":                      nodes,
+		"histories_by_len":               levels[1:],
+		"histories_by_size":              sizeNodes,
+		"real_filter_calls":              ops,
+		"distinct_filter_states_len<=4":  len(states),
 		"reference_class_x_real_verdict": vd,
-		"fresh_filter_rechecks":         selfChecked,
+		"fresh_filter_rechecks":          selfChecked,
 	})
 	c.Sample(map[string]any{"part": "filter", "size": 64, "history": []string{"add:0", "add:64", "add:1", "add:0", "add:18446744073709551615"}, "reference_verdicts": []bool{true, true, false, false, true}, "meaning": "each prefix of each such history is one case; the real Add and IsOk/MustAdd verdicts must equal the reference"})
 }
